@@ -126,12 +126,7 @@ func r181(c *Ctx) {
 			continue
 		}
 		if k == activeSlot {
-			fresh := false
-			if e, ok := call.Call.Args[1].(*ssa.Extract); ok {
-				if src, ok := e.Tuple.(*ssa.Call); ok && src.Call.StaticCallee() != nil && src.Call.StaticCallee().Name() == "findOrCreateService" {
-					fresh = true
-				}
-			}
+			fresh := freshServiceWithNilError(c, nil, call.Call.Args[1])
 			c.ob(rule, "active-slot-written-only-on-fresh-service in "+fname(u.in), call.Pos(), fresh, true, "TargetSlotActive may be deployed only into the service returned by findOrCreateService (a fresh object, R06.2)")
 		}
 	}
